@@ -1,6 +1,7 @@
 import KyupyVerif.Drv.CircNet
 import KyupyVerif.Drv.ImplCert
 import KyupyVerif.Model.VerilogLib
+import KyupyVerif.Model.VerilogLibFit
 import KyupyVerif.Proofs.GenOpsWO
 import KyupyVerif.Proofs.StripLink
 import KyupyVerif.Proofs.LinesDriven
@@ -11,10 +12,14 @@ import KyupyVerif.Proofs.LinesDriven
   `Gen.libNames` (row lookup in the generated C19 tables); `order` = the real `topological_order()` of the REAL resolved circuit
   (`~` when there is none); one block per library cell type the module instantiates: its key, the node names and the canonical dump
   (without blanks) of its implementation circuit and the implementation's real topological order.
-* answer: `hyp=<10 flags> names=<c:name,…> dump=<resolved dump with names, blanks removed | raise> <row answers | ~>`;
+* answer: `hyp=<12 flags + 1> names=<c:name,…> dump=<resolved dump with names, blanks removed | raise> <row answers | ~>`;
   flags (0/1) = `verilogOKB`, `libCleanB`, `NNet.wf` of the parsed dump, `resolveOKB`, the model of `resolve_tlib_cells` answers,
   `instCertB` for every library-cell node, `h'.sNodes = sNodes`, and `orderOKB` / `forksOKB` / `linesDrivenB` of the resolved
-  circuit with `order` — the hypotheses of `verilog_library_end_to_end`; a row answer = the values the datasheet model computed by
+  circuit with `order`, `tlFitsB` (the pin table SENT — the real `TechLib.cells[kind][1]` — numbers the pins of every library
+  instance as its generated table row lists them, and the instance connects only pins of the row) and `vArityLibB` (every instance
+  that stays a simulation primitive has its input pins at indices 0..3) — the hypotheses of `verilog_library_end_to_end`; a 13th
+  character that is NO hypothesis: `tlExactB`, the table sent has exactly as many entries for the cell type of every library
+  instance as its row has pins (with `tlFitsB`: the entry lists EXACTLY the row's pin names); a row answer = the values the datasheet model computed by
   `vEvalLib` shows at the `s_nodes` positions (`vCaptures`; `0`/`1`/`-`), followed by `!` when `vModelLibB` rejects the table. -/
 namespace KV.Drv.VerilogLib
 open KV KV.Netlist KV.Transform KV.TL KV.DS KV.Drv.Netlist KV.Drv.CircNet
@@ -38,6 +43,11 @@ def certsB (lib : Lib) (row : String → Option Cell) (ord : String → List Nat
 /-- the table row of a cell type in library `libIdx` of the generated tables (an empty row when there is none) -/
 def emptyCell : Cell := ⟨0, [], [], [], [], 0, []⟩
 def rowOf (libIdx : Nat) (kind : String) : Option Cell := KV.Drv.ImplCert.findRow libIdx kind.toList
+
+/-- the finite pin table sent has, for the cell type of every library instance, as many entries as the row has pins -/
+def tlExactB (rows : List PinRow) (isLib : String → Bool) (row : String → Cell) (stmts : List Stmt) : Bool :=
+  (vInsts stmts).all fun i => !(isLib i.ty) ||
+    (rows.filter fun r => r.kind == i.ty).length == (row i.ty).inNames.length + (row i.ty).outNames.length
 
 def semRowLib (isLib : String → Bool) (row : String → Cell) (tl : TL) (ports : List String) (stmts : List Stmt) (r : String) : String :=
   let a := bitsRow r
@@ -70,6 +80,7 @@ def handle (cmd : String) (args : List String) : Option String :=
           let lib : Lib := blocks.map fun b => (b.1, b.2.1)
           let ord : String → List Nat := fun k => ((blocks.find? fun b => b.1 == k).map (·.2.2)).getD []
           let row := rowOf libIdx.toNat!
+          let rowC : String → Cell := fun k => (row k).getD emptyCell
           let okv := verilogOKB c tl ports stmts && rs.all RStmt.ok
           let nn := verilogNNet c tl ports stmts
           let res := resolveCells lib nn
@@ -78,10 +89,11 @@ def handle (cmd : String) (args : List String) : Option String :=
             (match res with | some h' => decide (h'.net.sNodes = nn.net.sNodes) | none => false),
             (match res with | some h' => orderOKB h'.net o | none => false),
             (match res with | some h' => forksOKB h'.net o | none => false),
-            (match res with | some h' => linesDrivenB Gen.kindPrefixes h'.net o | none => false)]
+            (match res with | some h' => linesDrivenB Gen.kindPrefixes h'.net o | none => false),
+            tlFitsB (libHas lib) rowC tl stmts, vArityLibB (libHas lib) tl stmts,
+            tlExactB (parseTable table) (libHas lib) rowC stmts]
           let names := joinOr "," ((vSNames ports stmts).map showEp)
           let rws := if rows == "~" then [] else rows.splitOn "/"
-          let rowC : String → Cell := fun k => (row k).getD emptyCell
           let dump := match res with | some h' => noBlanks (KV.Drv.Transform.showNN h') | none => "raise"
           some s!"hyp={"".intercalate (flags.map b01)} names={names} dump={dump} {if okv then joinOr "/" (rws.map (semRowLib (libHas lib) rowC tl ports stmts)) else "~"}"
     | [] => some "bad-ports"
